@@ -11,11 +11,11 @@ CONSTANTS
   Modes = {"bin"}
   Protos = {1, 4}
   Secs = {2, 3, 20}
-  MaxChunks = 1
+  MaxChunks = 2
   P1MaxChunks = 21
   MaxFiles = 1
   MaxPauses = 0
-  StartSizes = {1048576, 1073741824}
+  StartSizes = {}
   Variant = "coded"
 INVARIANTS Export NeverRejectedByReceiver
 CHECK_DEADLOCK FALSE
